@@ -60,6 +60,19 @@ def cases(tier, seed):
         rng = scenario.rng_for(seed, "C11c", i)
         scn = scenario.gen_scenario(rng, refine=False, max_iters=200)
         out.append({"kind": "xproc", "scn": scn, "i": i})
+    # shipped benchmark problems: the SAME problem object serves several Solvers one after the other (repeat, batched repeat) and a freshly
+    # constructed object of the same member serves one more - one trial sequence
+    fams = ["gkls", "grishagin", "hill", "shekel", "rastrigin", "xsquared", "shekel4", "gkls", "grishagin"]
+    for i in range(27 if tier == "quick" else 900):
+        rng = scenario.rng_for(seed, "C11d", i)
+        fam = fams[i % len(fams)]
+        key = {"gkls": lambda: ("gkls", int(rng.integers(2, 4)), int(rng.integers(1, 101))), "grishagin": lambda: ("grishagin", int(rng.integers(1, 101))),
+               "hill": lambda: ("hill", int(rng.integers(0, 1000))), "shekel": lambda: ("shekel", int(rng.integers(0, 1000))),
+               "rastrigin": lambda: ("rastrigin", int(rng.integers(1, 4))), "xsquared": lambda: ("xsquared", int(rng.integers(1, 4))),
+               "shekel4": lambda: ("shekel4", int(rng.integers(1, 4)))}[fam]()
+        out.append({"kind": "bench", "key": list(key), "i": i, "seed": seed,
+                    "scn": {"N": None, "r": float(rng.choice([2.5, 3.0, 4.0])), "eps": float(rng.choice([0.01, 0.02, 0.05])),
+                            "iters": int(rng.integers(40, 220 if tier == "quick" else 600)), "m": int(rng.integers(5, 11)), "refine": bool(i % 3 != 2)}})
     return out
 
 
@@ -90,7 +103,53 @@ def run_pat(scn, pattern):
     return record.run_solver(s, listener=False, cap=max([scn["iters"]] + lims) + sum(p[1] for p in pattern if p[0] == "iter") + 8)
 
 
+def run_bench(c):
+    from vlib import bench
+    scn = c["scn"]
+    key = tuple(c["key"])
+    viol = []
+    obs = {"bench_members": 1, "bench_families": [key[0]], "bench_refined": int(scn["refine"])}
+    inner = bench.construct(key)
+
+    def run(obj, pattern):
+        t = record.run_solver(dict(scn, pattern=pattern), listener=False, problem=record.ProxyProblem(obj, cap=scn["iters"] + 40))
+        sol = t.solutions[-1] if t.solutions else None
+        snap = None if sol is None else (np.array(sol.bestTrials[0].point.floatVariables, dtype=float).tolist(), float(sol.bestTrials[0].functionValues[0].value),
+                                         sol.numberOfGlobalTrials)
+        return t, snap
+    first, snap1 = run(inner, [["solve"]])
+    if first.fp_exhausted or first.swallowed or first.aborted:
+        return {"violations": [], "obs": {"bench_runs_not_comparable": 1}, "skip": "run ended by the method's guard"}
+    b_all = [e for e in first.log if e["ph"] in ("g", "l")]
+    b = glog(first)
+    T = len(b)
+    rng = scenario.rng_for(c["seed"], "C11bench", c["i"])
+    k1 = int(rng.integers(1, max(2, T)))
+    k2 = int(rng.integers(0, max(1, T - k1)))
+    progs = [("the same problem object, second Solver", inner, [["solve"]], True),
+             ("the same problem object, third Solver, batched", inner, [["iter", k1], ["iter", k2], ["solve"]], False),
+             ("a freshly constructed object of the same member", bench.construct(key), [["solve"]], True),
+             ("the same problem object, fourth Solver", inner, [["solve"]], True)]
+    for what, obj, pat, whole in progs:
+        t, snap = run(obj, pat)
+        obs["bench_reruns"] = obs.get("bench_reruns", 0) + 1
+        g = [e for e in t.log if e["ph"] in ("g", "l")] if whole else glog(t)
+        ref = b_all if whole else b
+        if not same_log(ref, g):
+            if len(viol) < 4:
+                viol.append({"mech": "repeat-differs", "key": list(key), "run": what, "T": T, "len": len(g), "first_diff": first_diff(ref, g),
+                             "refine": scn["refine"], "phases_compared": "global+local" if whole else "global"})
+        elif snap != snap1 and len(viol) < 4:
+            viol.append({"mech": "repeat-reports-another-result", "key": list(key), "run": what, "first": snap1, "now": snap})
+    obs["bench_trials"] = T
+    obs["bench_local_evals"] = len(b_all) - T
+    return {"violations": viol, "obs": obs, "nontrivial": T >= 5, "keys": ["bench|%s|%d" % ("|".join(map(str, key)), c["i"])],
+            "sample": {"kind": "shipped problem object reused by four Solvers + a fresh object", "key": list(key), "T": T, "refine": scn["refine"]} if c["i"] < 3 else None}
+
+
 def run_case(c):
+    if c["kind"] == "bench":
+        return run_bench(c)
     scn = c["scn"]
     viol = []
     obs = {}
@@ -201,7 +260,7 @@ def EXHAUSTIVE(tier):
 
 
 def finalize(obs, tier, stats):
-    for k in ("compositions_all", "compositions_random", "overshoot", "zero_batches", "fresh_process_runs", "second_solves", "raised_limit_runs"):
+    for k in ("compositions_all", "compositions_random", "overshoot", "zero_batches", "fresh_process_runs", "second_solves", "raised_limit_runs", "bench_reruns", "bench_local_evals"):
         if not obs.get(k):
             return "%s never exercised" % k, {}
     return None, {"exhaustive_part": "all compositions of every prefix for %d scenarios with T <= %d" % (obs.get("allcomp_scenarios", 0), obs.get("max_T_allcomp", 0))}
